@@ -1,9 +1,10 @@
 import SqlgrepModel.Codec
 import SqlgrepModel.Model.ExtractSpec
+import SqlgrepModel.Model.JsonDoc
 /-
 Driver handler for kind `extract` (C01, C02, C06):
 
-  extract (pats (xNAME cap|split xREGEX)…) (cols COL…) (line xHEX) (res R…) (json J|nojson) (f64 (xTEXT BITS|none)…)
+  extract (pats (xNAME cap|split xREGEX)…) (cols COL…) (line xHEX) (res R…) (json J)|notjson|compute|nojson (f64 (xTEXT BITS|none)…)
     COL     = (col PARSING TYPE nullable trim convert micro DEFAULT)      flags 0|1, DEFAULT = none | VALUE
     PARSING = (re xNAME IDX) | (multi (xNAME IDX)…) | (json STEP…)        STEP = (f xNAME) | (i N)
     R       = none | (cap G…) with G = none | xHEX | (split xHEX…)         one per pattern, in order
@@ -98,6 +99,15 @@ def f64EntryOfSexp : Sexp → Option (Text × Option Nat)
   | .list [t, b] => do pure ((← t.bytes?), some (← b.nat?))
   | _ => none
 
+/-- the JSON document of a line: `(json J)` = shipped, serde_json parsed it; `notjson` = shipped, serde_json refused it;
+`compute` = not shipped, `JsonDoc.docOfLine` computes it; `nojson` = not needed (no JSON column) -/
+def jsonFact? (line : Text) : Sexp → Option (Option Json)
+  | .atom "nojson" => some none
+  | .atom "notjson" => some none
+  | .atom "compute" => some (JsonDoc.docOfLine line)
+  | .list [.atom "json", j] => (jsonOfSexp j).map some
+  | _ => none
+
 def section? (name : String) : Sexp → Option (List Sexp)
   | .list (.atom n :: rest) => if n == name then some rest else none
   | _ => none
@@ -111,14 +121,11 @@ def run (args : List Sexp) : Option String := do
       | .list [.atom "line", l] => l.bytes?
       | _ => none
     let res ← (← section? "res" res).mapM patResOfSexp
-    let json ← match json with
-      | .atom "nojson" => some none
-      | .list [.atom "json", j] => (jsonOfSexp j).map some
-      | _ => none
+    let json ← jsonFact? line json
     let tbl ← (← section? "f64" f64).mapM f64EntryOfSexp
     -- the regex crate's answers, keyed by (source text, mode)
     let answers : List ((Text × RegexMode) × PatRes) := (pats.zip res).map (fun pr => ((pr.1.regex, pr.1.mode), pr.2))
-    let o : Oracles := { parseF64 := fun t => (tbl.lookup t).join }
+    let o : Oracles := Oracles.withFacts tbl
     let lo : LineOracle :=
       { line := line,
         captures := fun re => match answers.lookup (re, RegexMode.captures) with | some (PatRes.cap gs) => some gs | _ => none,
